@@ -152,6 +152,26 @@ pub struct LeafC {
     c: Option<Box<LeafA>>,
 }
 
+/// two files whose names differ only in the case of a letter (two files on a case-sensitive file system), one of them
+/// below a directory that has such a twin as well
+#[derive(TS)]
+#[ts(export_to = "twins/Twin.ts")]
+pub struct TwinUp {
+    l: Leaf,
+}
+
+#[derive(TS)]
+#[ts(export_to = "twins/twin.ts")]
+pub struct TwinLow {
+    a: Alpha,
+}
+
+#[derive(TS)]
+#[ts(export_to = "Twins/twin.ts")]
+pub struct TwinDir {
+    t: i32,
+}
+
 /// three types in one file whose name does not end in `.ts` (the file form is taken verbatim); one depends on another
 #[derive(TS)]
 #[ts(export_to = "models.mts")]
@@ -360,6 +380,9 @@ pub fn entries() -> Vec<Entry> {
         entry!("Wrap<Leaf>", Wrap<Leaf>),
         entry!("Wrap<Alpha>", Wrap<Alpha>),
         entry!("TooHigh", TooHigh),
+        entry!("TwinUp", TwinUp),
+        entry!("TwinLow", TwinLow),
+        entry!("TwinDir", TwinDir),
         entry!("MtsA", MtsA),
         entry!("MtsB", MtsB),
         entry!("MtsC", MtsC),
